@@ -62,6 +62,11 @@ func genProg(rng *rand.Rand, depth int, nops int, allowTransfer bool, self strin
 			p.Call(other, inner.String(), false)
 			kinds = append(kinds, "call("+strings.Join(ik, ",")+")")
 		case x < 19 && allowTransfer:
+			if rng.Intn(3) == 0 {
+				// a payment the contract cannot afford, noticed and survived, then the affordable one
+				p.TryTransfer(sn.VerifContract, sn.K(rng.Intn(4)).Address, "100000000")
+				kinds = append(kinds, "trytransfer(too-much)")
+			}
 			p.Transfer(sn.VerifContract, sn.K(rng.Intn(4)).Address, fmt.Sprint(1+rng.Intn(9)))
 			kinds = append(kinds, "transfer")
 		default:
